@@ -280,6 +280,123 @@ def scan_selfapp(u):
                     yield (fname, 'long-double-assignment-value-used', n, '%s uses the value of a long double assignment (%s): chibicc leaves no value behind for it (known C20 finding: `a = b = c` stores garbage)' % (fname, n.src()))
 
 
+# ---- R12.13 local unions read through a member other than the one stored (type punning into the output)
+_BASE_SIZE = {'char': 1, 'signed char': 1, 'unsigned char': 1, '_Bool': 1, 'short': 2, 'unsigned short': 2, 'int': 4, 'unsigned int': 4, 'unsigned': 4,
+              'long': 8, 'unsigned long': 8, 'long long': 8, 'unsigned long long': 8, 'float': 4, 'double': 8, 'long double': 16,
+              'uint8_t': 1, 'int8_t': 1, 'uint16_t': 2, 'int16_t': 2, 'uint32_t': 4, 'int32_t': 4, 'uint64_t': 8, 'int64_t': 8, 'size_t': 8}
+
+
+def _tsize(t):
+    """(object size, bytes a store of the whole member writes) of a member type; None if not in the table"""
+    t = (t or '').replace('const ', '').replace('volatile ', '').strip()
+    m = re.match(r'^(.*?)\s*\[(\d+)\]$', t)
+    if m:
+        e = _tsize(m.group(1))
+        return None if e is None else (e[0] * int(m.group(2)), e[1] if False else e[0] * int(m.group(2)))
+    if t.endswith('*'):
+        return (8, 8)
+    if t not in _BASE_SIZE:
+        return None
+    # an x87 extended value occupies 16 bytes of which a store writes 10: the other 6 keep what the stack held before
+    return (16, 10) if t == 'long double' else (_BASE_SIZE[t], _BASE_SIZE[t])
+
+
+def _union_fields(vd):
+    """[(member name, type)] of the anonymous/named union type of a local VarDecl, else None"""
+    t = vd.dtype or ''
+    if not t.startswith('union'):
+        return None
+    # the record is declared in the same DeclStmt (anonymous union) or earlier in the unit
+    ds = vd.parent
+    recs = [c for c in (ds.inner if ds is not None else []) if c.kind == 'RecordDecl' and c.d.get('tagUsed') == 'union']
+    if not recs:
+        tag = t[len('union'):].strip()
+        if tag in vd.unit.records:
+            return [(f[0], f[1]) for f in vd.unit.records[tag]]
+        return [('?', '?')]
+    return [(c.name, c.dtype) for c in recs[-1].inner if c.kind == 'FieldDecl']
+
+
+def scan_union_pun(u):
+    """every byte a read of `u.m` returns was written before: by an initialiser, a memset of the whole object, or a store into a member that
+    writes at least that many bytes (a long double store writes 10 of its 16). Events are taken in evaluation (pre-order) sequence inside one function;
+    a covering write inside a nested conditional statement does not count."""
+    for fname, fd in u.functions.items():
+        for vd in fd.find('VarDecl'):
+            fields = _union_fields(vd)
+            if fields is None:
+                continue
+            if vd.d.get('storageClass') in ('static', 'extern'):
+                continue
+            sizes = {n: _tsize(t) for n, t in fields}
+            if any(v is None for v in sizes.values()):
+                yield (fname, '#unknown-member-type', vd, 'union %s in %s has a member whose size is not in the table' % (vd.name, fname))
+                continue
+            covered = 0
+            if 'init' in vd.d and fields:
+                covered = sizes[fields[0][0]][1]
+            blk = vd.enclosing('CompoundStmt')
+            if blk is None:
+                continue
+            seen = False
+            handled = set()
+            for n in blk.walk():
+                if n is vd:
+                    seen = True
+                    continue
+                if not seen or id(n) in handled:
+                    continue
+                if n.kind == 'CallExpr' and n.callee() in ('memset', 'bzero', '__builtin_memset'):
+                    a = n.args()
+                    tgt = a[0].strip_all() if a else None
+                    if tgt is not None and tgt.kind == 'UnaryOperator' and tgt.opcode == '&':
+                        r = tgt.inner[0].strip()
+                        if r.kind == 'DeclRefExpr' and r.ref_id == vd.id:
+                            szarg = a[-1].strip_all()
+                            whole = szarg.kind == 'UnaryExprOrTypeTraitExpr' and (szarg.d.get('name') == 'sizeof')
+                            if whole and _unconditional(n, blk):
+                                covered = max(covered, max(s[0] for s in sizes.values()))
+                            for x in n.walk():
+                                handled.add(id(x))
+                    continue
+                if n.kind == 'MemberExpr' and n.inner and n.inner[0].strip().kind == 'DeclRefExpr' and n.inner[0].strip().ref_id == vd.id:
+                    m = n.name
+                    # store?  parent chain: (ArraySubscript)* then BinaryOperator '=' lhs
+                    top, par = n, n.parent
+                    elem = False
+                    while par is not None and par.kind in ('ParenExpr', 'ImplicitCastExpr', 'ArraySubscriptExpr') and par.inner and par.inner[0] is top:
+                        if par.kind == 'ArraySubscriptExpr':
+                            elem = True
+                        if par.kind == 'ImplicitCastExpr' and par.cast_kind == 'LValueToRValue':
+                            break
+                        top, par = par, par.parent
+                    if par is not None and par.kind == 'BinaryOperator' and par.opcode == '=' and par.inner[0] is top:
+                        if not elem and _unconditional(par, blk):
+                            covered = max(covered, sizes[m][1])
+                        continue
+                    if par is not None and par.kind == 'UnaryOperator' and par.opcode == '&':
+                        yield (fname, '#address-of-member', n, 'address of %s.%s taken in %s: flow not followed' % (vd.name, m, fname))
+                        continue
+                    need = sizes[m][0]
+                    if covered < need:
+                        yield (fname, 'union-read-%s.%s-uninitialised' % (vd.name, m), n,
+                               '%s reads %s.%s (%d bytes) when only %d bytes of the union were written before (a long double store writes 10 of its 16 bytes): '
+                               'the rest is whatever the stack held, so what is printed differs between builds and runs of the compiler' % (fname, vd.name, m, need, covered))
+                    else:
+                        yield (fname, '+union-read-%s.%s-initialised' % (vd.name, m), n, '')
+
+
+def _unconditional(n, blk):
+    for a in n.ancestors():
+        if a is blk:
+            return True
+        if a.kind in ('IfStmt', 'ForStmt', 'WhileStmt', 'DoStmt', 'SwitchStmt', 'ConditionalOperator', 'CaseStmt', 'DefaultStmt'):
+            return False
+        if a.kind == 'BinaryOperator' and a.opcode in ('&&', '||'):
+            return False
+    return False
+
+
 # --------------------------------------------------------------------- canary ---
 # function in the canary -> (rule, scanner name, construct prefix that must be reported)
 CANARY_EXPECT = [
@@ -303,9 +420,10 @@ CANARY_EXPECT = [
     ('bad_self_u64_to_float', 'R12.5', 'selfapp', 'u64-to-float'),
     ('bad_self_discard', 'R12.5', 'selfapp', 'discarded-long-double'),
     ('bad_self_chain', 'R12.5', 'selfapp', 'long-double-assignment-value-used'),
+    ('bad_union_pun', 'R12.13', 'union_pun', 'union-read-u.w-uninitialised'),
 ]
 
-CANARY_SILENT = ('good_counter', 'good_print', 'file_exists', 'good_ld_assign')
+CANARY_SILENT = ('good_counter', 'good_print', 'file_exists', 'good_ld_assign', 'good_union_pun')
 
 
 def load_canary(P):
@@ -338,6 +456,7 @@ def run_canary(P, rep):
         'buckets': [(f, c) for (f, c, n, m) in scan_buckets(cu)],
         'counters': [(f, c) for (f, c, n, m) in scan_counters(cu) if counter_bad(m)],
         'selfapp': [(f, c) for (f, c, n, m) in scan_selfapp(cu)],
+        'union_pun': [(f, c) for (f, c, n, m) in scan_union_pun(cu) if not c.startswith('+')],
     }
     for (fn, rule, sc, construct) in CANARY_EXPECT:
         if (fn, construct) in got[sc]:
@@ -348,7 +467,7 @@ def run_canary(P, rep):
     for sc, lst in got.items():
         for (f, c) in lst:
             if f in CANARY_SILENT:
-                rep.undecided('R12.1' if sc in ('sources', 'time_flow') else ('R12.2' if sc in ('format', 'ptr2int') else ('R12.3' if sc == 'buckets' else ('R12.5' if sc == 'selfapp' else 'R12.4'))),
+                rep.undecided('R12.1' if sc in ('sources', 'time_flow') else ('R12.2' if sc in ('format', 'ptr2int') else ('R12.3' if sc == 'buckets' else ('R12.5' if sc == 'selfapp' else ('R12.13' if sc == 'union_pun' else 'R12.4')))),
                               'canaries/c12_nondeterminism.c:%s:false-alarm-%s' % (f, c), 'the %s scanner flags the benign canary function %s (%s)' % (sc, f, c))
 
 
@@ -454,6 +573,29 @@ def r1211(P, rep, tier):
     reissue(rep, 'R12.12', sub, 'the self-compiled compiler would compute in another type than the reference build: ')
 
 
+def r1213(P, rep, tier):
+    """what is printed may not depend on stack residue: every local union that is read through a member was fully written before (codegen prints the
+    two 64-bit halves of a long double literal; an x87 store writes only 10 of the 16 bytes).  And the constant evaluator is the one piece of chibicc whose
+    C semantics are unsequenced-sensitive (eval2 hands one `label` out-parameter to its operands): C07's relocation rules, re-used"""
+    from ..report import Report, reissue
+    from . import c07
+    rep.rule('R12.13', 'every local union read through a member was completely written before the read (initialiser, memset of the whole object, or a store of at least that many bytes; a long double store writes 10 of 16)', floor=3)
+    n = 0
+    for un in P.unit_names:
+        u = P.unit(un)
+        for (fname, construct, node, msg) in scan_union_pun(u):
+            n += 1
+            key = '%s:%s:%s' % (u.name, fname, construct.lstrip('+#'))
+            if construct.startswith('#'):
+                rep.undecided('R12.13', key, msg, where='%s:%d' % (u.name, node.line))
+            else:
+                rep.ob('R12.13', key, construct.startswith('+'), msg, where='%s:%d' % (u.name, node.line))
+    rep.rule('R12.14', 'the constant evaluator hands its relocation out-parameter to at most one operand of an operator and folds every operator as C11 prescribes (same obligations as C07): two operands writing one label make the result depend on the evaluation order the host compiler chose, which differs between the reference build and the self-compiled one', floor=100)
+    sub = Report('C07')
+    c07.run(P, sub, tier)
+    reissue(rep, 'R12.14', sub, 'the self-compiled compiler would fold or relocate differently from the reference build: ')
+
+
 # ------------------------------------------------------------------------ run ---
 def run(P, rep, tier):
     rep.explanation = ('Determinism clause of C12 only: which functions may obtain a value that differs from run to run (time, pid, random, environment, '
@@ -463,7 +605,7 @@ def run(P, rep, tier):
                        'a miscompilation of a construct chibicc\'s own sources use is covered by re-running the C01/C02 translation rules (R12.6).')
     rep.assumptions += ['libc functions outside the source table are deterministic functions of their arguments and of file contents',
                         'pointer comparisons and pointer differences are within one object (not checked)',
-                        'uninitialised memory is not read (not checked here)']
+                        'uninitialised memory is not read, except for local unions (R12.13)']
     rep.rule('R12.1', 'time / pid / random / environment / file-metadata / temp-name sources are called only by their allow-listed function, and the time value reaches only __DATE__/__TIME__ (and __TIMESTAMP__ through its one builtin)', floor=14)
     rep.rule('R12.2', 'no %p and no pointer for an integer conversion in any printf-like call; pointer->integer conversions only in the allow-listed test code', floor=10)
     rep.rule('R12.3', 'HashMap.buckets is touched only by functions of hashmap.c, none of which produces output', floor=6)
@@ -476,6 +618,7 @@ def run(P, rep, tier):
     r129(P, rep, tier)
     r1210(P, rep)
     r1211(P, rep, tier)
+    r1213(P, rep, tier)
     cg = L.CallGraph(P)
     units = [P.unit(n) for n in P.unit_names]
     # ---------------- R12.1
